@@ -2,6 +2,8 @@
 from . import flags
 from .. import anchors as A
 
+from . import routes, fresh, flags, sizes, conv, dtype, carriers, funcs, ops, strings, pipeline, widths
+
 EXPLANATION = (
     "Static decision of the flag protocol from the source of objects.py/functions.py/callbacks.py: "
     "R1 each overflow/underflow store in the overflow handler is control-dependent on exactly its own strict "
@@ -29,11 +31,11 @@ def run(ck):
     flags.callbacks_in_handler(ck, "C04.R5", h, roles)
     flags.callback_names(ck, "C04.R5")
     flags.propagation(ck, "C04.R6")
-    from . import fresh, conv
     fresh.constructor_state(ck, "C20.R2")              # derived objects start with a fresh, unshared status record
     conv.getitem_keeps_map(ck, "C17.R6")               # indexing builds its element with the constructor (own status record)
     fresh.returned_objects_fresh(ck, "C20.R1")
     # handler is fed the rounded value with the format's bounds: decided in pipeline rules (C01.R2/C02.R2),
     # imported here so that C04 stands alone
-    from . import pipeline
     pipeline.handler_call_sites(ck, "C04.R1", roles)
+    sizes.resize_rules(ck, {"restore_raw": "C10.R1"}) # resize hands the exact re-scaled codes to set_val (inaccuracy is seen)
+    routes.numpy_dispatch_transparent(ck, "C15.R5")  # results of the numpy route keep the flags of the result object
